@@ -183,7 +183,10 @@ class VM:
 
     def run(self, compiled: CompiledFunction) -> JSValue:
         """Run compiled bytecode and return result."""
-        self.start_time = time.monotonic()
+        # A VM created for nested code (eval, Function) keeps the deadline of the
+        # evaluation that is already running
+        if self.start_time is None:
+            self.start_time = time.monotonic()
 
         # Create initial call frame
         frame = CallFrame(
